@@ -361,9 +361,15 @@ def run(ctx: Ctx):
                 except Hang:
                     ctx.diverge("eqsat pipeline did not return within 60 s", rules=rname or "none", program=text)
                     continue
-                except Exception as e:  # noqa: BLE001   a pipeline that fails reports failure; the property is about what it returns
+                except Exception as e:  # noqa: BLE001   the property promises a program: a pipeline that raises on a valid pure function with sound rules breaks it
                     stats["pipeline_raised"] += 1
-                    ctx.diverge("eqsat pipeline raised", rules=rname or "none", error=f"{type(e).__name__}: {str(e)[:160]}", program=text)
+                    ctx.violate(f"eqsat pipeline [{rname or 'no rules'}] raised {type(e).__name__}: {str(e)[:200]} after {len(snaps)} stage(s)\n--- source\n{text}",
+                                {"clause": "PipelineYieldsAProgram", "rules": rname or "none", "width": w, "program": text, "error_type": type(e).__name__,
+                                 "stage": len(snaps)}, clause="PipelineYieldsAProgram")
+                    continue
+                if ubd.endswith("(cyclic)"):
+                    ctx.violate(f"eqsat-extract [{rname or 'no rules'}] returns a function body in which a value depends on itself ({ubd}): not an executable program\n--- source\n{text}\n--- extracted\n{m}",
+                                {"clause": "ExtractedProgramIsAcyclic", "rules": rname or "none", "width": w, "program": text}, clause="ExtractedProgramIsAcyclic")
                     continue
                 if ubd:
                     stats["extracted_use_before_def"] += 1
@@ -404,5 +410,5 @@ def run(ctx: Ctx):
                                  "rule sets}; inputs: exhaustive when small, boundary/random tuples otherwise; distinct = (program, rule set)"})
     ctx.sample({"program": tv_metas[0]["text"], "rules": tv_metas[0]["pass"], "extracted": tv_metas[0]["after"]} if tv_metas else {})
     ctx.assumptions += ["BV.tla / Machine.tla are the semantics of the arith ops; the rule sets are sound for wrapping integer arithmetic (TLC would report an unsound rule as a violation)",
-                        "e-nodes that are not a member of any class are ignored; a pipeline that raises reports failure (recorded as divergence)",
+                        "e-nodes that are not a member of any class are ignored; a pipeline stage that raises on a valid pure function is a violation (PipelineYieldsAProgram)",
                         "PDL rules are converted by the repository's own convert-pdl-to-pdl-interp (mlir-opt is not available offline, so apply-eqsat-pdl itself cannot run)"]
